@@ -8,6 +8,7 @@ import (
 	"context"
 	"fmt"
 	"strings"
+	"unsafe"
 
 	p9p "github.com/frobnitzem/go-p9p"
 	"github.com/frobnitzem/go-p9p/zzverif/vsched"
@@ -113,14 +114,23 @@ func (fs *FS) begin(call string, h *Ent, detail string) int {
 		out = fs.Decide(n, call, h)
 	}
 	if fs.Concurrent {
-		vsched.Yield("fs."+call+".enter", 0)
+		vsched.Yield("fs."+call+".enter", objOf(h))
 	}
 	return out
 }
 
+// objOf is the happens-before identity of an entry: calls on one entry are
+// dependent operations (the overlap monitor observes their order).
+func objOf(h *Ent) uintptr {
+	if h == nil {
+		return 0
+	}
+	return uintptr(unsafe.Pointer(h))
+}
+
 func (fs *FS) end(h *Ent) {
 	if fs.Concurrent || fs.SlowStep {
-		vsched.Yield("fs.exit", 0)
+		vsched.Yield("fs.exit", objOf(h))
 	}
 	if h != nil {
 		h.inCall--
@@ -318,14 +328,14 @@ func (f *File) enter(call string) int {
 		out = fs.Decide(n, "File."+call, e)
 	}
 	if fs.Concurrent {
-		vsched.Yield("fs.File."+call+".enter", 0)
+		vsched.Yield("fs.File."+call+".enter", objOf(e))
 	}
 	return out
 }
 
 func (f *File) exit() {
 	if f.ent.fs.Concurrent || f.ent.fs.SlowStep {
-		vsched.Yield("fs.exit", 0)
+		vsched.Yield("fs.exit", objOf(f.ent))
 	}
 	f.inCall--
 }
